@@ -6,7 +6,7 @@ and records what the real encoder emits; spec/trace/TraceEnc.tla compares every 
 differ, runs the recorded output through the family's decoding automaton ("drift" = different but decodes, "hl-wrong" = does not).
 Neither tag is a verdict: the caller encodes those inputs through the public API and lets the full reference reader judge them.
 If the accessors do not build against the tree under test (code refactored away from under them) the stage is skipped and says so."""
-import os, random, subprocess
+import hashlib, json, os, random, subprocess
 import vlib
 
 SPACES = {
@@ -82,3 +82,86 @@ def dims_conformance(chk, drift_cap=60):
     cov["pdfdims"] = dict(shapes_compared=len(evs), identical_to_model=sum(x.get("same", 0) for x in extras), drift=len(drift), drift_revalidated_through_reader=len(sample),
                           violating_shape_rules=len(wrong))
     return wrong[:120], sample
+
+
+def aztec_selection(chk, quick, drift_cap=120):
+    """Aztec size selection: aztec.Encode's choice (automatic and explicit requests around it) for payloads of every length 0..300 of five
+    alphabets at several percentages, plus long payloads up to the largest symbol, against AztecSel!Select applied to the recorded high-level
+    bit stream (TraceEnc, sym azsel). Returns the drift / hl-wrong events (content, p = [pct, req]); callers re-run them through the public
+    API with pixels (and, for C13, in pairs with the automatic choice)."""
+    cov = chk.cov.setdefault("encoder_model_conformance", {})
+    try:
+        binary = vlib.build_harness(chk.work, tags="verif verifenc", cmd="encdump")
+    except vlib.Inconclusive as e:
+        cov["aztec_selection"] = dict(skipped="accessors do not build against this tree: " + str(e)[-300:])
+        return []
+    # The sweep is the same for the four checks that use it (C03, C10, C12, C13); its result - the list of inputs on which the code left the
+    # model, nothing else - is kept in /verif/.cache under a key over every .go file of the tree under test, the harness, the specification,
+    # seed and tier, so that a run over all checks computes it once. Those inputs are always re-executed through the public API by the caller.
+    key = _tree_key(quick)
+    cpath = os.path.join(vlib.VERIF, ".cache", "azsel-%s.json" % key)
+    if os.path.exists(cpath):
+        try:
+            c = json.load(open(cpath))
+            cov["aztec_selection"] = dict(c["cov"], reused_result_of_same_tree_seed_tier=True)
+            return c["events"]
+        except Exception:
+            pass
+    rng = random.Random(vlib.seed() * 7919 + (1 if quick else 2))
+    pcts = sorted(set([0, 10, 23, 33] + rng.sample(range(0, 101), 1 if quick else 8)))
+    jobs = []
+    for alpha in (b"ABCDEFGHIJKLMNOPQRSTUVWXYZ", b"0123456789", bytes(range(128, 160)), b"abc xyz, 12. AB", b"\x00\xff"):
+        for pct in pcts:
+            text = [rng.choice(alpha) for _ in range(301)]
+            jobs += [dict(content=text[:n], pct=pct) for n in range(0, 301)]
+    for _ in range(30 if quick else 200):       # long payloads: the upper sizes and the refusal beyond the largest symbol
+        alpha = rng.choice([b"ABCDEFGH IJ", b"0123456789", bytes(range(128, 140)), b"\x00", b"\xff"])
+        n = rng.choice([400, 700, 1000, 1500, 1900, 2400, 2800, 3000, 3100, 3500]) + rng.randrange(60)
+        jobs.append(dict(content=[rng.choice(alpha) for _ in range(n)], pct=rng.choice([0, 1, 10, 23, 33])))
+    inp = os.path.join(chk.work, "azsel-in.ndjson")
+    out = os.path.join(chk.work, "azsel-out.ndjson")
+    vlib.write_ndjson(inp, jobs)
+    p = subprocess.run([binary, "-sym", "azsel", "-in", inp, "-out", out], capture_output=True, text=True, timeout=3000)
+    if p.returncode != 0:
+        raise vlib.Inconclusive("encdump failed: " + p.stderr[-500:])
+    evs = vlib.read_ndjson(out)
+    os.remove(out)
+    os.remove(inp)
+    evs.sort(key=lambda e: e["hln"])
+    n = 12
+    shards = [evs[i::n] for i in range(n)]
+    acc, bad, st, tr, extras = vlib.validate_traces(chk.work, "TraceEnc", "TraceEnc.cfg", shards, heap="4g", timeout=6000, par=n, want_extra=True)
+    chk.cov["states"] += st
+    chk.cov["transitions"] += tr
+    wrong = [b["event"] for b in bad if b["why"] == "hl-wrong"]
+    drift = [b["event"] for b in bad if b["why"] == "drift"]
+    sample = drift if len(drift) <= drift_cap else rng.sample(drift, drift_cap)
+    cov["aztec_selection"] = dict(choices_compared=len(evs), identical_to_model=sum(x.get("same", 0) for x in extras), drift=len(drift), drift_revalidated_through_reader=len(sample),
+                                  stream_not_decodable=len(wrong), percentages=pcts, payloads=len(jobs))
+    result = [dict(content=e["content"], p=e["p"]) for e in wrong[:60] + sample]
+    try:
+        os.makedirs(os.path.dirname(cpath), exist_ok=True)
+        old = sorted((os.path.join(os.path.dirname(cpath), f) for f in os.listdir(os.path.dirname(cpath))), key=os.path.getmtime)
+        for f in old[:-30]:
+            os.remove(f)
+        tmp = cpath + ".%d" % os.getpid()
+        json.dump(dict(cov=cov["aztec_selection"], events=result), open(tmp, "w"))
+        os.replace(tmp, cpath)
+    except OSError:
+        pass
+    return result
+
+
+def _tree_key(quick):
+    h = hashlib.sha256()
+    roots = [vlib.REPO, os.path.join(vlib.VERIF, "harness"), os.path.join(vlib.VERIF, "spec")]
+    for root in roots:
+        for dp, dn, fn in sorted(os.walk(root)):
+            dn[:] = sorted(d for d in dn if d != ".git")
+            for f in sorted(fn):
+                if f.endswith((".go", ".tla", ".cfg", ".mod", ".sum")):
+                    h.update(os.path.relpath(os.path.join(dp, f), root).encode())
+                    h.update(open(os.path.join(dp, f), "rb").read())
+    h.update(open(os.path.abspath(__file__), "rb").read())
+    h.update(("%d %s" % (vlib.seed(), quick)).encode())
+    return h.hexdigest()[:24]
